@@ -612,6 +612,17 @@ class WrappedTable:
         left_fk_name = f"{self.tablename.lower()}{self.ormatic.foreign_key_postfix}"
         right_fk_name = f"{target_wrapped_table.tablename.lower()}{self.ormatic.foreign_key_postfix}"
 
+        # a collection of the own class needs two different columns that both reference the own table,
+        # and the relationship has to be told which of them is the side of the owner
+        joins = ""
+        if left_fk_name == right_fk_name:
+            left_fk_name = f"source_{left_fk_name}"
+            right_fk_name = f"target_{right_fk_name}"
+            joins = (
+                f", primaryjoin='{self.full_primary_key_name} == {association_table_name}.c.{left_fk_name}'"
+                f", secondaryjoin='{target_wrapped_table.full_primary_key_name} == {association_table_name}.c.{right_fk_name}'"
+            )
+
         # create association table metadata
         association_table = AssociationTable(
             name=association_table_name,
@@ -631,7 +642,7 @@ class WrappedTable:
         rel_type = (
             f"Mapped[{module_and_class_name(List)}[{target_wrapped_table.tablename}]]"
         )
-        rel_constructor = f"relationship('{target_wrapped_table.tablename}', secondary='{association_table_name}', cascade='save-update, merge')"
+        rel_constructor = f"relationship('{target_wrapped_table.tablename}', secondary='{association_table_name}'{joins}, cascade='save-update, merge')"
         self.relationships.append(
             ColumnConstructor(rel_name, rel_type, rel_constructor)
         )
